@@ -54,6 +54,7 @@ FEATURES = {
     "nonlocal": "def f():\n    c = 0\n    def h():\n        nonlocal c\n        c += 1\n        return {USE}\n    return (h(), c)\nprint(f())\n",
     "return-flag": "def f(a):\n    for z in range(2):\n        if a:\n            return {USE}\n    return 0\nprint(f(1), f(0))\n",
     "walrus-shared": "def f():\n    c = 0\n    def h():\n        return c\n    print((c := 5), h(), {USE})\nf()\n",
+    "class-implicit-wrappers": "class C:\n    def __new__(cls, *a):\n        return object.__new__(cls)\n    def __init_subclass__(cls, **k):\n        cls.seen = {USE}\n    def __class_getitem__(cls, i):\n        return (i, {USE})\nclass D(C):\n    pass\nprint(type(C()).__name__, D.seen, C[1])\n",
     "short-if": "t = 1\nif t:\n    print({USE})\nelse:\n    print(0)\n",
 }
 ROLES = {
@@ -81,6 +82,7 @@ LOCAL_FEATURES = {
     "local-aug": "def user({N}='LA'):\n    d = [[1]]\n    d[0] += [{N}]\n    return d\nprint(user())\n",
     "class-while": "class U:\n    {N} = 'CW'\n    n = 0\n    while n < 2:\n        n += 1\n    r = {N}\nprint(U.r, U.n)\n",
     "class-import": "class U:\n    {N} = 'CI'\n    import os.path as op\n    r = {N}, op.sep\nprint(U.r)\n",
+    "class-implicit-wrappers": "class U:\n    {N} = 'CX'\n    def __new__(cls, *a):\n        return object.__new__(cls)\n    def __init_subclass__(cls, **k):\n        cls.seen = 1\n    def __class_getitem__(cls, i):\n        return i\n    r = {N}\nclass D(U):\n    pass\nprint(type(U()).__name__, D.seen, U[1], U.r)\n",
     "class-nested-class": "class U:\n    {N} = 'CN'\n    class V:\n        z = 1\n    r = {N}, V.z\nprint(U.r)\n",
 }
 
